@@ -27,10 +27,10 @@ def run(ctx):
                 items = P.gen_items(fam, rng, 9 if batch else (70 if fam in ("KdqTreeStreaming", "PCACD", "LinearFourRates") else 120))
                 if kind in ("row", "batch") and layout == "mixedframe" and fam == "CDBD":
                     continue
-                if layout == "flat" and fam == "PCACD":
+                if layout in ("flat", "frame1") and fam == "PCACD":
                     continue          # PCACD needs at least two features
                 ts.append(D.detector_pair(fam, p, items, layout, rng.randrange(10 ** 6)))
-    ctx.validate("Product", ts, "detectors: private copies vs caller overwrites everything it passed (9 layouts)", sabotage=P.sabotage,
+    ctx.validate("Product", ts, "detectors: private copies vs caller overwrites everything it passed (11 layouts)", sabotage=P.sabotage,
                  replay=lambda i: {"mode": "det", "fam": ts[i]["fam"], "params": ts[i]["params"], "items": ts[i]["items"], "layout": ts[i]["layout"], "seed": ts[i]["seed"]},
                  nontrivial=lambda t: any(e["a"]["state"] == "drift" for e in t["ev"]))
     ti = []
